@@ -46,6 +46,8 @@ def drive(strategy, check, stats, *, seed, max_examples, known_sigs=(), shrink_b
                   suppress_health_check=list(HealthCheck))
         @given(strategy)
         def test(case):
+            if state['best'] is not None and time.time() - state['t0'] > shrink_budget_s:
+                return          # shrink budget used up: remaining shrink attempts "pass" without being executed
             res = check(case)
             if res.discard:
                 stats.add('discarded')
